@@ -13,7 +13,9 @@
 #undef private
 #define private public   // the store's maps identify which store / descriptor a lookup returned
 #include "ola/rdm/PidStore.h"
+#include "ola/rdm/PidStoreHelper.h"
 #undef private
+#include <pthread.h>
 #include "common/rdm/DescriptorConsistencyChecker.h"
 #include "common/rdm/GroupSizeCalculator.h"
 #include "common/rdm/VariableFieldSizeCalculator.h"
@@ -30,6 +32,9 @@ using std::string;
 using std::vector;
 
 static const RootPidStore *g_store = NULL;
+// ONE PidStoreHelper for the whole run (its own store, serializer and deserializer): what the
+// command line tools and the RDM HTTP/RPC code use.
+static ola::rdm::PidStoreHelper *g_helper = NULL;
 // ONE serializer for the whole run (as PidStoreHelper keeps one): every case is also re-encoded
 // through it, after its buffer has been filled with 0xff by another message.
 static ola::rdm::MessageSerializer *g_shared = NULL;
@@ -67,13 +72,12 @@ static void flush_quarantine() {
 }
 
 struct DescRef { unsigned man, pid, kind; const Descriptor *d; };
-static void all_descs(vector<DescRef> *out) {
+static void all_descs_of(const RootPidStore *root, vector<DescRef> *out) {
   vector<std::pair<unsigned, const PidStore*> > stores;
-  stores.push_back(std::make_pair(0u, g_store->EstaStore()));
-  for (unsigned man = 1; man < 65536; man++) {
-    const PidStore *s = g_store->ManufacturerStore(man);
-    if (s) stores.push_back(std::make_pair(man, s));
-  }
+  stores.push_back(std::make_pair(0u, root->m_esta_store.get()));
+  RootPidStore::ManufacturerMap::const_iterator mit = root->m_manufacturer_store.begin();
+  for (; mit != root->m_manufacturer_store.end(); ++mit)
+    stores.push_back(std::make_pair(static_cast<unsigned>(mit->first), mit->second));
   for (size_t i = 0; i < stores.size(); i++) {
     vector<const PidDescriptor*> l;
     stores[i].second->AllPids(&l);
@@ -87,6 +91,144 @@ static void all_descs(vector<DescRef> *out) {
       }
     }
   }
+}
+static void all_descs(vector<DescRef> *out) { all_descs_of(g_store, out); }
+
+// two independent polynomial hashes of the canonical dump of a store (descriptors, then PIDs)
+static string store_digest(const RootPidStore *root, unsigned *ndesc, unsigned *npids) {
+  std::ostringstream dump;
+  vector<DescRef> ds;
+  all_descs_of(root, &ds);
+  for (size_t i = 0; i < ds.size(); i++)
+    dump << ds[i].man << ":" << ds[i].pid << ":" << ds[i].kind << ":" << c14::desc_str(ds[i].d) << ";";
+  *ndesc = ds.size();
+  *npids = 0;
+  vector<std::pair<unsigned, const PidStore*> > stores;
+  stores.push_back(std::make_pair(0u, root->m_esta_store.get()));
+  RootPidStore::ManufacturerMap::const_iterator mit = root->m_manufacturer_store.begin();
+  for (; mit != root->m_manufacturer_store.end(); ++mit)
+    stores.push_back(std::make_pair(static_cast<unsigned>(mit->first), mit->second));
+  for (size_t i = 0; i < stores.size(); i++) {
+    vector<const PidDescriptor*> l;
+    stores[i].second->AllPids(&l);
+    *npids += l.size();
+    for (size_t k = 0; k < l.size(); k++)
+      dump << stores[i].first << ":" << l[k]->Value() << ":" << l[k]->Name() << ";";
+  }
+  const string t = dump.str();
+  unsigned long long h1 = 7, h2 = 11;
+  for (size_t i = 0; i < t.size(); i++) {
+    unsigned c = static_cast<unsigned char>(t[i]);
+    h1 = (h1 * 131 + c) % 1000000007ULL;
+    h2 = (h2 * 257 + c) % 998244353ULL;
+  }
+  return vh::str(h1) + "." + vh::str(h2);
+}
+
+// "load k": the shipped directory through another spelling of its path; every spelling must load,
+// and load the same table
+static string load_op(unsigned k) {
+  string d = PID_DATA_DIR;
+  while (d.size() > 1 && d[d.size() - 1] == '/') d.erase(d.size() - 1);
+  size_t sl = d.rfind('/');
+  string dir = sl == string::npos ? "." : d.substr(0, sl), base = sl == string::npos ? d : d.substr(sl + 1);
+  string spelled = d;
+  bool relative = false;
+  switch (k % 9) {
+    case 0: spelled = d; break;
+    case 1: spelled = d + "/"; break;
+    case 2: spelled = dir + "//" + base; break;
+    case 3: spelled = dir + "/./" + base; break;
+    case 4: spelled = d + "/."; break;
+    case 5: spelled = d + "//"; break;
+    case 6: spelled = base; relative = true; break;
+    case 7: spelled = "./" + base + "/"; relative = true; break;
+    case 8: spelled = ""; break;          // empty: RootPidStore::DataLocation()
+  }
+  char cwd[4096];
+  if (!getcwd(cwd, sizeof(cwd))) return "ld=getcwd-failed";
+  if (relative && chdir(dir.c_str()) != 0) return "ld=chdir-failed";
+  const RootPidStore *st = RootPidStore::LoadFromDirectory(spelled, true);
+  if (relative && chdir(cwd) != 0) return "ld=chdir-back-failed";
+  if (!st) return "ld=FAILED:" + spelled;
+  unsigned nd = 0, np = 0;
+  string dg = store_digest(st, &nd, &np);
+  delete st;
+  return "ld=ok;ndesc=" + vh::str(nd) + ";npids=" + vh::str(np) + ";dg=" + dg;
+}
+
+// decode + re-encode through the long-lived PidStoreHelper; "same" or what the helper produced
+static string helper_roundtrip(const Descriptor *d, const vector<uint8_t> &bytes, const string &expect) {
+  if (!g_helper) return "no-helper";
+  vh::Exact e(bytes);
+  std::auto_ptr<const Message> m(g_helper->DeserializeMessage(d, e.p, e.n));
+  string got = "null";
+  if (m.get()) {
+    unsigned int n = 0;
+    const uint8_t *out = g_helper->SerializeMessage(m.get(), &n);
+    got = c14::msg_str(m.get()) + "/" + vh::hex(out, n);
+  }
+  return got == expect ? string("same") : got;
+}
+
+// "conc T N": T threads, each with its own MessageDeserializer / MessageSerializer, decode and
+// re-encode a fixed work list N times; results are compared with the single-threaded answers.
+struct ConcItem { const Descriptor *d; vector<uint8_t> bytes; string expect; };
+struct ConcArg { const vector<ConcItem> *items; unsigned rounds, start; unsigned long mismatches; };
+static void *conc_worker(void *p) {
+  ConcArg *a = static_cast<ConcArg*>(p);
+  ola::rdm::MessageDeserializer des;
+  ola::rdm::MessageSerializer ser;
+  const vector<ConcItem> &items = *a->items;
+  for (unsigned r = 0; r < a->rounds; r++) {
+    for (size_t i = 0; i < items.size(); i++) {
+      const ConcItem &it = items[(i + a->start) % items.size()];
+      std::auto_ptr<const Message> m(des.InflateMessage(it.d, it.bytes.empty() ? reinterpret_cast<const uint8_t*>("") : &it.bytes[0], it.bytes.size()));
+      string got = "null";
+      if (m.get()) {
+        unsigned int n = 0;
+        const uint8_t *out = ser.SerializeMessage(m.get(), &n);
+        got = c14::msg_str(m.get()) + "/" + vh::hex(out, n);
+      }
+      if (got != it.expect) a->mismatches++;
+    }
+  }
+  return NULL;
+}
+static string conc_op(unsigned threads, unsigned rounds) {
+  if (threads < 1 || threads > 8) return "conc=bad-args";
+  // work list: one descriptor per distinct shape (at most 40), payload lengths around what it accepts
+  vector<DescRef> ds;
+  all_descs(&ds);
+  vector<ConcItem> items;
+  std::vector<string> seen;
+  for (size_t i = 0; i < ds.size() && seen.size() < 40; i++) {
+    string shape = c14::desc_str(ds[i].d);
+    bool dup = false;
+    for (size_t j = 0; j < seen.size(); j++) dup = dup || seen[j] == shape;
+    if (dup) continue;
+    seen.push_back(shape);
+    unsigned accepted = 0;
+    for (unsigned len = 0; len < 80 && accepted < 3; len++) {
+      ConcItem it;
+      it.d = ds[i].d;
+      for (unsigned b = 0; b < len; b++) it.bytes.push_back(static_cast<uint8_t>(1 + (b * 7 + len) % 250));
+      ola::rdm::MessageDeserializer des;
+      std::auto_ptr<const Message> m(des.InflateMessage(it.d, it.bytes.empty() ? reinterpret_cast<const uint8_t*>("") : &it.bytes[0], len));
+      it.expect = describe(m.get());
+      if (m.get()) accepted++;
+      if (m.get() || len % 16 == 1) items.push_back(it);
+    }
+  }
+  vector<ConcArg> args(threads);
+  vector<pthread_t> tids(threads);
+  for (unsigned t = 0; t < threads; t++) {
+    args[t].items = &items; args[t].rounds = rounds; args[t].start = t * 17; args[t].mismatches = 0;
+    if (pthread_create(&tids[t], NULL, conc_worker, &args[t]) != 0) return "conc=thread-create-failed";
+  }
+  unsigned long total = 0;
+  for (unsigned t = 0; t < threads; t++) { pthread_join(tids[t], NULL); total += args[t].mismatches; }
+  return "conc=" + vh::str(total) + ";items=" + vh::str(items.size() > 0 ? 1 : 0);
 }
 
 // "reload <k>": let the long-lived deserializer see every descriptor of the current store, delete the
@@ -210,6 +352,7 @@ static string run(const Descriptor *d, unsigned prev, const vector<uint8_t> &byt
   vh::Exact e(bytes);
   std::auto_ptr<const Message> m(deserializer.InflateMessage(d, e.p, e.n));
   string ldes = ";ldes=" + long_lived_decode(d, bytes);
+  ldes += ";helper=" + helper_roundtrip(d, bytes, describe(m.get()));
   if (!m.get()) return o.str() + ";r=null" + ldes;
   ola::rdm::MessageSerializer serializer;
   unsigned int n = 0;
@@ -260,12 +403,13 @@ static bool store_has(const PidStore *s, const PidDescriptor *d) {
     if (it->second == d) return true;
   return false;
 }
-static string desc_id(const PidDescriptor *d) {
+static string desc_id(const PidDescriptor *d, const RootPidStore *root = NULL) {
   if (!d) return "-";
+  if (!root) root = g_store;
   string owner = "?";
-  if (store_has(g_store->m_esta_store.get(), d)) owner = "0";
-  RootPidStore::ManufacturerMap::const_iterator it = g_store->m_manufacturer_store.begin();
-  for (; owner == "?" && it != g_store->m_manufacturer_store.end(); ++it)
+  if (store_has(root->m_esta_store.get(), d)) owner = "0";
+  RootPidStore::ManufacturerMap::const_iterator it = root->m_manufacturer_store.begin();
+  for (; owner == "?" && it != root->m_manufacturer_store.end(); ++it)
     if (store_has(it->second, d)) owner = vh::str(static_cast<unsigned>(it->first));
   return owner + ":" + vh::str(d->Value()) + ":" + d->Name();
 }
@@ -290,6 +434,24 @@ static string look_op(const string &ops) {
       case 'N': if (f.size() == 2) r = desc_id(g_store->GetDescriptor(
                     unhex_str(f[0]), static_cast<uint16_t>(vh::num(f[1])))); break;
       case 'n': r = desc_id(g_store->GetDescriptor(unhex_str(body))); break;
+      case 'H': {     // the same lookups through the long-lived PidStoreHelper (its own store)
+        if (!g_helper || body.empty()) break;
+        vector<string> g = vh::split(body.substr(1), ':');
+        const RootPidStore *hr = g_helper->m_root_store;
+        if (body[0] == 'V' && g.size() == 2)
+          r = desc_id(g_helper->GetDescriptor(static_cast<uint16_t>(vh::num(g[0])),
+                                              static_cast<uint16_t>(vh::num(g[1]))), hr);
+        if (body[0] == 'N' && g.size() == 2)
+          r = desc_id(g_helper->GetDescriptor(unhex_str(g[0]), static_cast<uint16_t>(vh::num(g[1]))), hr);
+        if (body[0] == 'S' && g.size() == 1) {
+          vector<string> names;
+          vector<const PidDescriptor*> descs;
+          g_helper->SupportedPids(static_cast<uint16_t>(vh::num(g[0])), &names);
+          g_helper->SupportedPids(static_cast<uint16_t>(vh::num(g[0])), &descs);
+          r = vh::str(names.size()) + "/" + vh::str(descs.size());
+        }
+        break;
+      }
     }
     out += (i ? "|" : "") + r;
   }
@@ -316,6 +478,8 @@ static string handle(const string &p) {
   }
   if (a[0] == "reload" && a.size() == 2) return reload_op(vh::num(a[1]));
   if (a[0] == "look" && a.size() == 2) return look_op(a[1]);
+  if (a[0] == "load" && a.size() == 2) return load_op(vh::num(a[1]));
+  if (a[0] == "conc" && a.size() == 3) return conc_op(vh::num(a[1]), vh::num(a[2]));
   if (a[0] == "store") {
     // count what the store holds: descriptors and PIDs, as the exporter enumerated them
     unsigned ndesc = 0, npids = 0;
@@ -343,5 +507,7 @@ int main(int argc, char **argv) {
   g_store = RootPidStore::LoadFromDirectory(PID_DATA_DIR, true);
   // a load failure is itself a violation: every case then reports load=failed
   if (!g_store) fprintf(stderr, "LOAD-FAILED\n");
+  g_helper = new ola::rdm::PidStoreHelper(PID_DATA_DIR);
+  if (!g_helper->Init()) { delete g_helper; g_helper = NULL; }
   return vh::run(argc, argv, handle);
 }
